@@ -169,7 +169,9 @@ func (e *Engine) checkFrame(st *State, env *Env, ct *Contract, pos token.Pos) {
 	}
 	a0 := st.init["$alloc"]
 	for _, h := range sortedKeys(st.heaps) {
-		if h == "$alloc" || strings.HasPrefix(h, "IT!") {
+		if h == "$alloc" || strings.HasPrefix(h, "IT!") || strings.HasPrefix(h, "L!hash!") {
+			// (the ghost state of hash.Hash objects is not part of a function's frame: hashers are created, fed and
+			// read locally in this code base)
 			continue
 		}
 		cur := st.heaps[h]
